@@ -10,7 +10,8 @@ structure State where
   pol : Option Policy := none          -- `ecs` ops
   ppol : Option Policy := none         -- `pipe` ops
   cap : Nat := 0
-  entries : List Entry := []
+  entries : List (Nat × Entry) := []   -- (key, entry): the abstract store
+  edeAns : List Nat := []   -- answers whose entry preserved an extended error (`CacheEntry.ede`)
   cuts : List Nat := []
 
 /-! ### parsing -/
@@ -116,11 +117,17 @@ def encKey : Hash := fun qid cd sc =>
   | none => base * 3
   | some p => ((base * 3 + (match p.fam with | .v4 => 1 | .v6 => 2)) * 256 + p.bits) * 2 ^ 128 + p.addr
 
-def storeFn (es : List Entry) : Nat → Option Entry :=
-  fun k => es.find? (fun e => encKey e.qid e.cd e.scope == k)
+def storeFn (es : List (Nat × Entry)) : Nat → Option Entry :=
+  fun k => (es.find? (fun x => x.1 == k)).map (·.2)
 
-def insertEntry (es : List Entry) (e : Entry) : List Entry :=
-  e :: es.filter (fun x => encKey x.qid x.cd x.scope != encKey e.qid e.cd e.scope)
+def insertAt (es : List (Nat × Entry)) (k : Nat) (e : Entry) : List (Nat × Entry) :=
+  (k, e) :: es.filter (fun x => x.1 != k)
+
+def insertEntry (es : List (Nat × Entry)) (e : Entry) : List (Nat × Entry) :=
+  insertAt es (encKey e.qid e.cd e.scope) e
+
+def parseScopeTok (s : String) : Option (Option Prefix) :=
+  if s == "shared" then some none else (parsePrefix s).map some
 
 /-- cookie / NSID the edns writer adds for this client (`SetEdns0` harvest). -/
 def serverOpts (copts : List Opt) : List Opt :=
@@ -213,7 +220,7 @@ def step (st : State) (w : List String) : State × String :=
   | ["pipe", "new", en, f4, f6, m4, m6, nets, cap, _prefetch] =>
     match buildFrom en f4 f6 m4 m6 nets, cap.toNat? with
     | some r, some cap =>
-      ({ st with ppol := r.policy, cap := cap, entries := [], cuts := [] }, s!"pol={boolStr r.policy.isSome}")
+      ({ st with ppol := r.policy, cap := cap, entries := [], edeAns := [], cuts := [] }, s!"pol={boolStr r.policy.isSome}")
     | _, _ => (st, "bad-op")
   | ["pipe", "q", c, proto, qid, cd, copts, ttl, uopts, ans] =>
     match parseClient c true, qid.toNat?, parseBool cd, parseOpts copts, ttl.toNat?, parseOpts uopts, ans.toNat? with
@@ -222,7 +229,9 @@ def step (st : State) (w : List String) : State × String :=
       let ka := proto == "tcp" && f.copts.any (fun o => o.code == 11)
       match serveLookup encKey (storeFn st.entries) qid cd f.cs with
       | some e =>
-        let ropt := replyOptions f.noedns none f.fwd (serverOpts f.copts) ka
+        -- `CacheEntry.ToMsg` re-attaches a preserved extended error on its own OPT
+        let served : Option (List Opt) := if st.edeAns.contains e.ans then some [.other 15 "ede"] else none
+        let ropt := replyOptions f.noedns served f.fwd (serverOpts f.copts) ka
         (st, s!"up=hit ans={e.ans} ropt={showOpts false ropt} st=- ttl=- pf=-")
       | none =>
         let e := storeEntry st.ppol f.cs uopts qid cd ttl st.cap ans
@@ -230,9 +239,23 @@ def step (st : State) (w : List String) : State × String :=
         let stS := match e.scope with
           | some p => showPrefix p
           | none => "shared"
-        ({ st with entries := insertEntry st.entries e },
+        let hasEde := (uopts.getD []).any (fun o => o.code == 15)
+        ({ st with entries := insertEntry st.entries e, edeAns := if hasEde then ans :: st.edeAns else st.edeAns },
           s!"up={showOpts true (some f.fwd)} ans={ans} ropt={showOpts false ropt} st={stS} ttl={e.ttl} pf={boolStr (prefetchEligible e)}")
     | _, _, _, _, _, _, _ => (st, "bad-op")
+  | ["pipe", "forge", qid, cd, frm, to] =>
+    -- a forged key collision: the entry stored for `frm` also sits under the key of `to`
+    match qid.toNat?, parseBool cd, parseScopeTok frm, parseScopeTok to with
+    | some qid, some cd, some frm, some to =>
+      match storeFn st.entries (encKey qid cd (normScope frm)) with
+      | some e => ({ st with entries := insertAt st.entries (encKey qid cd (normScope to)) e }, "ok")
+      | none => (st, "none")
+    | _, _, _, _ => (st, "bad-op")
+  | ["pipe", "badvers", c, _proto, _ver, copts] =>
+    match parseClient c true, parseOpts copts with
+    | some client, some (some l) =>
+      (st, s!"rcode=16 up=f ropt={showOpts true (some (badversReplyOptions st.ppol client l))}")
+    | _, _ => (st, "bad-op")
   | ["pipe", "age", _, _] => (st, "ok")
   | ["pipe", "pfq"] => (st, "unmodelled")
   | ["pipe", "nx", c, _qid, cd, copts, k] =>
